@@ -123,7 +123,10 @@ class ContextualObject(pg_object.Object):
 
   def _on_bound(self):
     super()._on_bound()
-    self._contextual_overrides = threading.local()
+    # NOTE: `_on_bound` is also called after each rebind: the overrides that
+    # are in effect at that time survive it.
+    if '_contextual_overrides' not in self.__dict__:
+      self._contextual_overrides = threading.local()
 
   def _sym_inferred(self, key: str, **kwargs):
     """Override to allow attribute to access scoped value.
